@@ -140,7 +140,7 @@ func runJSON(kv map[string]string) string {
 	}
 	srv, err := c20lib.StartServer()
 	if err != nil {
-		return "ENV " + err.Error()
+		return "ENV " + c20lib.Enc(err.Error())
 	}
 	defer srv.Stop()
 	n, _ := strconv.Atoi(kv["n"])
@@ -162,7 +162,7 @@ func runJSON(kv map[string]string) string {
 func runJSONSched(kv map[string]string) string {
 	srv, err := c20lib.StartServer()
 	if err != nil {
-		return "ENV " + err.Error()
+		return "ENV " + c20lib.Enc(err.Error())
 	}
 	defer srv.Stop()
 	n, _ := strconv.Atoi(kv["n"])
@@ -185,7 +185,7 @@ func runJSONSched(kv map[string]string) string {
 			return "ENV bad sched"
 		}
 		c0, s0 := len(srv.Calls()), len(m.Aggr.Samples())
-		a, ok, hang := m.Acquire(5 * time.Second)
+		a, ok, hang := m.Acquire(15 * time.Second)
 		if hang {
 			shots = append(shots, "acquire-hang")
 			break
@@ -220,7 +220,7 @@ func orDash(s string) string {
 func runTable(kv map[string]string) string {
 	srv, err := c20lib.StartServer()
 	if err != nil {
-		return "ENV " + err.Error()
+		return "ENV " + c20lib.Enc(err.Error())
 	}
 	defer srv.Stop()
 	file := c20lib.WriteFile(".jsonl", jsonAmmoFile("t|target.TargetService.Stats||", false))
@@ -228,12 +228,12 @@ func runTable(kv map[string]string) string {
 		map[string]any{"type": "once", "times": 1}, 1)
 	m, err := c20lib.NewManual(y, 1)
 	if err != nil {
-		return "ENV " + c20lib.Enc(err.Error())
+		return "setup=" + c20lib.Enc(c20lib.Trunc(err.Error(), 160))
 	}
 	defer m.Close()
 	g, ok := m.Guns[0].(*grpcgun.Gun)
 	if !ok {
-		return fmt.Sprintf("ENV gun type %T", m.Guns[0])
+		return fmt.Sprintf("setup=gun-type-%T", m.Guns[0])
 	}
 	var rows []string
 	for name, md := range g.Services {
@@ -338,7 +338,7 @@ func scenPool(kv map[string]string, addr string, rps map[string]any, n int) stri
 func runScenSched(kv map[string]string) string {
 	srv, err := c20lib.StartServer()
 	if err != nil {
-		return "ENV " + err.Error()
+		return "ENV " + c20lib.Enc(err.Error())
 	}
 	defer srv.Stop()
 	n, _ := strconv.Atoi(kv["n"])
@@ -357,7 +357,7 @@ func runScenSched(kv map[string]string) string {
 			return "ENV bad sched"
 		}
 		c0, s0 := len(srv.Calls()), len(m.Aggr.Samples())
-		a, ok, hang := m.Acquire(5 * time.Second)
+		a, ok, hang := m.Acquire(15 * time.Second)
 		if hang {
 			shots = append(shots, "acquire-hang")
 			break
@@ -383,7 +383,7 @@ func runScenSched(kv map[string]string) string {
 func runScenEngineInProc(kv map[string]string) string {
 	srv, err := c20lib.StartServer()
 	if err != nil {
-		return "ENV " + err.Error()
+		return "ENV " + c20lib.Enc(err.Error())
 	}
 	defer srv.Stop()
 	n, _ := strconv.Atoi(kv["n"])
